@@ -534,7 +534,13 @@ def _livepatch__class(oldclass, newclass, modname, cache, visit_stack):
     for name in newnames - oldnames:
         setattr(oldclass, name, newdict[name])
     names = oldnames & newnames
-    names.difference_update(olddict.get("__slots__", []))
+    # Skip the slot descriptors; they are created by the class statement and
+    # can't be moved between classes.  (Don't go by the names listed in
+    # ``__slots__``: it may be a single string, and private names are stored
+    # mangled.)
+    names = set(name for name in names
+                if type(olddict[name]) is not types.MemberDescriptorType
+                and type(newdict[name]) is not types.MemberDescriptorType)
     names.discard("__slots__")
     names.discard("__dict__")
     # Python < 3.3 doesn't support modifying __doc__ on classes with
